@@ -176,6 +176,9 @@ def _check(pre, cg, aa):
                     cands[ent[1]].add(n)
         bad = False
         if set(cands) != set(tnodes):
+            lost_h = [t for t in tnodes if t not in cands and tnodes[t].get('element') == 'H']
+            if lost_h and all_atom:
+                rec('C09', 'c09.written_hydrogen_lost', f'{tag} coarse node {k} ({fname}): the hydrogen atoms {sorted(lost_h, key=repr)} written in its fragment have no copy in the result')
             rec('C02', 'c02.copy_nodes', f'{tag} coarse node {k} ({fname}): template nodes {sorted(tnodes, key=repr)} but its atoms map to template nodes {sorted(cands, key=repr)}')
             continue
         # a shared atom also carries the mapping entry of the other coarse node; if that node has the
